@@ -923,14 +923,15 @@ class BaseModel(ModelInterface):
             )
             # reindex back to given index being careful to index order (join so to handle multi-levels cases)
             if ix is not None:
-                # we need to explicitly pass `on` to preserve order of index levels
-                # and to explicitly pass columns to preserve 2D columns when they are
-                empty_df_like_ests = pd.DataFrame(
-                    [], index=ix, columns=estimations.columns
+                # the estimations are grouped by individual, each in the order of its requested rows:
+                # put every row back at the position it was requested at (a join on (ID, TIME) would
+                # multiply the rows of an age requested several times)
+                ix_ids = ix.get_level_values("ID")
+                requested_positions = np.concatenate(
+                    [np.flatnonzero(ix_ids == subj_id) for subj_id in timepoints]
                 )
-                estimations = empty_df_like_ests[[]].join(
-                    estimations, on=["ID", "TIME"]
-                )
+                estimations = estimations.iloc[np.argsort(requested_positions)]
+                estimations.index = ix
 
         return estimations
 
